@@ -408,7 +408,7 @@ def check_scalar_importer_rejects(ctx, rule, P):
             if G.formula(flag, P) != G.FALSE:
                 continue
             n += 1
-            lits = G.path_literals(ev, bb, P)
+            lits = G.path_literals(ev, bb, P, checks_only=True)
             ok = has_literal(lits, "is_zero", ("param", "input"), True)
             conds = sorted(G.show_f(a, 3) + ("" if p else " [false]") for a, p in lits)
             ctx.ob(rule, "%s/none@%s" % (fk, "zero" if ok else "other"), ok, "%s returns a constant `none` %s (path condition: %s)" % (fk, "only for the all-zero string" if ok else "under a condition that is not implied by the all-zero test: some non-zero canonical scalars are refused", conds[:3]), where=where(fn, bb))
